@@ -351,4 +351,73 @@ theorem seek_sfm_rdwr (h : H) (s : Store) (hm : h.mode = .rw) (off : Int) :
   refine ⟨?_, ?_, ?_⟩ <;>
     simp [seekSpec, seekWm, seekBase, seekIsTell, seekMoveH, seekFail, hm, modeBits]
 
+/-! ## files written by a write-only session -/
+
+/-- A file written by a write-only session of the library (open SFM_WRITE on a new file, any valid write calls and
+    header updates, close — the sessions of C04 / C07), opened SFM_RDWR: the open succeeds, the handle satisfies the
+    read/write invariant, and it stands for exactly the frames written, read position 0, write position at the end.
+    Excluded: WAV float/double (such a file carries a PEAK chunk) and WAV data ending on an odd offset (pad byte). -/
+theorem written_file_opens_rdwr (ix fmt : Nat) (ch sr : Int) (h0 : H) (s0 : Store) (ops : List SOp)
+    (ho : openHandle ix {} .w fmt ch sr = .ok h0 s0) (hsr : sr ≤ 0x7FFFFFFF) (hv : ∀ op ∈ ops, op.valid ch.toNat)
+    (hex : ∀ c, openCfg fmt ch sr = some c → c.hasPeak = false ∧
+      (c.container = .wav → (sessData c ops).length < 0xFFFFFFFF ∧ (c.hdrLen + (sessData c ops).length) % 2 = 0))
+    (ix' pos : Nat) :
+    ∃ c h' s', openCfg fmt ch sr = some c ∧
+      openHandle ix' ⟨(closeHandle (runS (h0, s0) ops).1 (runS (h0, s0) ops).2).bytes, pos⟩ .rw fmt ch sr = .ok h' s' ∧
+      RwInv h' s' ∧
+      absOf h' s' = { frames := groups c.bw (sessData c ops), rpos := 0, wpos := sessFrames ch.toNat ops } := by
+  obtain ⟨c, hcfg, h1, h2, h3, i⟩ := session_inv ops ho hv
+  obtain ⟨f1, f2, f3, f4, f5, f6⟩ := openCfg_facts hcfg
+  obtain ⟨hnp, hwav⟩ := hex c hcfg
+  have hdata : (c.init.run c ops).data = sessData c ops := by rw [run_data]; simp [Cfg.init]
+  have hframes : (c.init.run c ops).frames = sessFrames ch.toNat ops := by rw [run_frames, f4]; simp [Cfg.init]
+  have hdl := i.dlen
+  rw [hdata, hframes] at hdl
+  have hfin : ∀ h' s', ReopenedRw c.enc c.ch (sessFrames ch.toNat ops) (sessData c ops) h' s' →
+      RwInv h' s' ∧ absOf h' s' = { frames := groups c.bw (sessData c ops), rpos := 0, wpos := sessFrames ch.toNat ops } :=
+    fun h' s' r => ⟨r.inv, r.abs⟩
+  rw [close_bytes i]
+  cases hcc : c.container with
+  | raw =>
+    have himg : closedImage c (c.init.run c ops) = sessData c ops := by
+      simp [closedImage, hcc, snapImage, hdrBytes, hdata]
+    rw [himg]
+    rw [hcc] at f1 f5 f6
+    obtain ⟨h', s', ho', r⟩ := raw_image_open_rw fmt ch sr c.enc f1 ⟨h1, h2⟩ h3 (by rw [← f5]; exact f6)
+      (sessData c ops) (sessFrames ch.toNat ops) (by have := hdl; rw [Cfg.bw, f4] at this; exact this) ix' pos
+    have r2 : ReopenedRw c.enc c.ch (sessFrames ch.toNat ops) (sessData c ops) h' s' := by rw [f4]; exact r
+    exact ⟨c, h', s', hcfg, ho', hfin h' s' r2⟩
+  | au =>
+    have himg : closedImage c (c.init.run c ops) =
+        auHdr_ct c.big (codecOf c.fmtWord) c.sr c.ch (sessData c ops).length ++ sessData c ops := by
+      simp [closedImage, hcc, snapImage, hdrBytes, hdata]
+    rw [himg]
+    rw [hcc] at f1 f6
+    obtain ⟨h', s', ho', r⟩ := au_image_open_rw c.big (codecOf c.fmtWord) c.sr c.ch c.enc (by rw [f2]; exact f6)
+      (by rw [f4]; omega) (by rw [f3]; omega) (sessData c ops) (sessFrames ch.toNat ops) hdl ix' pos fmt ch sr
+      (by rw [f1]; simp)
+    exact ⟨c, h', s', hcfg, ho', hfin h' s' r⟩
+  | wav =>
+    obtain ⟨hg, hev⟩ := hwav hcc
+    have hpk : (c.init.run c ops).peak = none := by
+      have := i.pkSome
+      rw [hnp] at this
+      cases hp : (c.init.run c ops).peak with
+      | none => rfl
+      | some ps => rw [hp] at this; simp at this
+    have hpad : wavPad_ct c (c.init.run c ops) = [] := by
+      unfold wavPad_ct; rw [hdata, if_neg (by omega)]
+    have himg : closedImage c (c.init.run c ops) =
+        wavHdr_ct c.big (codecOf c.fmtWord) c.enc.nbytes c.ch c.sr (sessFrames ch.toNat ops : Nat) none true
+          ((c.hdrLen + (sessData c ops).length : Nat) : Int) (sessData c ops).length ++ sessData c ops := by
+      simp [closedImage, hcc, hdrBytes, hdata, hpad, hpk, hframes]
+    rw [himg]
+    rw [hcc] at f1 f6
+    have hL : c.hdrLen = wavHdrLen_ct (codecOf c.fmtWord) c.ch false := by
+      simp [Cfg.hdrLen, hcc, hnp]
+    obtain ⟨h', s', ho', r⟩ := wav_image_open_rw c.big (codecOf c.fmtWord) c.sr c.ch c.enc (by rw [f2]; exact f6)
+      (by rw [f4]; omega) (by rw [f3]; omega) (sessData c ops) (sessFrames ch.toNat ops) hdl hg _
+      (by rw [← hL]; exact hev) ix' pos fmt ch sr (by rw [f1]; simp)
+    exact ⟨c, h', s', hcfg, ho', hfin h' s' r⟩
+
 end Sf
